@@ -1,5 +1,6 @@
 //@include vx/prelude.rs
 //@include units/time.rs
+//@include units/speclib_arith.rs
 //@include units/supply_trait.rs
 //@include units/fixed_point.rs
 //@include units/supply_impls.rs
